@@ -68,6 +68,13 @@ class Ctxt:
             r = A.unpack_source(e.id, st)
             if r:
                 call, pos = r
+            else:
+                e2 = A.inline_temporaries(e, st, self.fn, exclude={self.pn} if self.pn else ())
+                if isinstance(e2, ast.Subscript) and isinstance(e2.slice, ast.Slice) and e2.slice.upper is None and e2.slice.step is None:
+                    lo = A.const_value(e2.slice.lower) if e2.slice.lower is not None else 0
+                    e2 = e2.value
+                if isinstance(e2, ast.Subscript) and isinstance(e2.value, ast.Call):
+                    call, pos = e2.value, A.const_value(e2.slice)
         elif isinstance(e, ast.Subscript) and isinstance(e.value, ast.Call):
             call, pos = e.value, A.const_value(e.slice)
         if call is None or pos != 1 or len(call.args) != 1:
